@@ -4,3 +4,4 @@ import Dm.Props.C09
 #print axioms Dm.Props.C09.two_explicit_sources_is_error
 #print axioms Dm.Props.C09.ignored_variant_is_none
 #print axioms Dm.Props.C09.enabled_variant_is_documented
+#print axioms Dm.Props.C09.ignored_sibling_makes_no_sole_field
